@@ -1518,6 +1518,33 @@ def builtin_summary(I, cal, args, node, st):
             else:
                 outs.append(o)
         return outs
+    if I.combinators and name in ('any', 'position', 'all', 'find') and ('iterator::Iterator::' in cal or 'core::iter::traits::iterator::Iterator>::' in cal) \
+            and len(args) == 2 and args[1][0] in ('closure', 'fn'):
+        # a search over a sequence with a predicate: the predicate is evaluated once on a generic element; the atom records the
+        # sequence and the condition(s) under which the predicate holds, so that a rule can read *what* is searched for
+        src = args[0]
+        el, st2 = st.fresh('elem')
+        el = ('elem', src, el[2])
+        conds = []
+        base = len(st2.pc)
+        for o in I.apply(args[1], [el], node, st2):
+            if o.kind != 'val':
+                continue
+            for truth, s3 in I.decide(o.val, o.st):
+                if truth:
+                    conds.append(tuple(s3.pc[base:]) + (((('holds', o.val), True),) if o.val[0] not in ('lit',) and not s3.pc[base:] else ()))
+        atom = (name if name != 'find' else 'position', src, el, tuple(sorted(set(conds), key=str)))
+        outs = []
+        for truth, s3 in I.decide(atom, st2):
+            if name == 'any':
+                outs.append(Out('val', ('lit', truth), s3))
+            elif name == 'all':
+                outs.append(Out('val', ('lit', truth), s3))
+            elif name == 'position':
+                outs.append(Out('val', ('ctor', 'Some', (('posidx', atom),)) if truth else ('ctor', 'None', ()), s3))
+            else:
+                outs.append(Out('val', ('ctor', 'Some', (('found', atom),)) if truth else ('ctor', 'None', ()), s3))
+        return outs
     if cal == 'core::iter::traits::iterator::Iterator::enumerate' and len(args) == 1:
         return [Out('val', ('enumerate', args[0]), st)]
     if cal == 'core::iter::traits::iterator::Iterator::collect' and args:
